@@ -44,6 +44,11 @@ def run(ctx):
                      'legacy wrapper under the same name, and vice versa', 2)
     ctx.rule('R16f', 'std_macro builds the argument string as optional `[` followed by numargs `{`; '
                      'std_environment forwards to it with make_environment_spec', 2)
+    ctx.rule('R16k', 'legacy argspec "[": leading whitespace before the optional argument is accepted unless '
+                     'optional_arg_no_space is set, like the argument-string spelling', 1)
+    ctx.rule('R16j', 'a spec given a legacy args parser object keeps its body delta (is_math_mode) unless the '
+                     'legacy parser requested an inner state: same body mode as the string / std_environment '
+                     'spellings', 1)
     ctx.rule('R16i', 'legacy methods never test a numeric option (read_max_nodes, ...) by truthiness: 0 is a '
                      'value distinct from the None default', 1)
     ctx.rule('R16h', 'get_latex_nodes(stop_upon_closing_brace=...): the closing delimiter registered in '
@@ -179,6 +184,75 @@ def run(ctx):
                    'get_latex_nodes does not forward all of its stop options to '
                    'LatexGeneralNodesParser under their own names', construct='get_latex_nodes: forwarding')
 
+    # ---- R16k: the legacy '[' argument may be preceded by whitespace unless optional_arg_no_space
+    bm_ = repo.mod(BASE)
+    pa_ = bm_.methods('MacroStandardArgsParser').get('parse_args')
+    dm_ = repo.mod('pylatexenc.latexnodes.parsers._delimited')
+    di_ = dm_.methods('LatexDelimitedExpressionParser').get('__init__')
+    dflt = None
+    if di_ is not None:
+        pos_ = di_.args.args
+        for a_, d_ in zip(pos_[len(pos_) - len(di_.args.defaults):], di_.args.defaults):
+            if a_.arg == 'allow_pre_space' and isinstance(d_, ast.Constant):
+                dflt = d_.value
+    br = [i for i in iter_own(pa_) if isinstance(i, ast.If) and "== '['" in unparse(i.test)] if pa_ else []
+    if not br or dflt is None:
+        ctx.unknown('R16k', bm_, pa_, 'optional-argument branch / parser default not found', construct='legacy optional argument')
+    else:
+        def _ctor_allows(scope):
+            for c_ in ast.walk(scope):
+                if isinstance(c_, ast.Call) and call_name(c_).endswith('Parser') and 'Optional' in call_name(c_):
+                    v_ = kwarg(c_, 'allow_pre_space')
+                    return (v_.value if isinstance(v_, ast.Constant) else None) if v_ is not None else dflt, c_
+            return None, None
+        allows, site = _ctor_allows(ast.Module(body=br[0].body, type_ignores=[]))
+        if site is None:
+            for c_ in ast.walk(ast.Module(body=br[0].body, type_ignores=[])):
+                if isinstance(c_, ast.Call) and call_name(c_).startswith('get_latex_'):
+                    h_ = w.functions.get('_pyltxenc2_LatexWalker_' + call_name(c_))
+                    if h_ is not None:
+                        allows, site = _ctor_allows(h_)
+        if site is None:
+            ctx.unknown('R16k', bm_, br[0], 'reader of the optional argument not recognised', construct='legacy optional argument')
+        else:
+            ctx.decide('R16k', allows is True, bm_, br[0],
+                       'the optional argument is read with allow_pre_space=True',
+                       'the optional argument of a legacy argspec is read by %s, which does not allow leading '
+                       'whitespace (allow_pre_space=%r), although optional_arg_no_space=False means whitespace '
+                       'is allowed and the same signature given as a string allows it: \\cmd{a} [b] gives '
+                       '[{a}, None] through MacroStandardArgsParser("{[") but [{a}, [b]] through "{["'
+                       % (short(site, 60), allows), construct='legacy optional argument')
+
+    # ---- R16j: the legacy wrapper's body-delta override keeps the spec's own body delta
+    spm = repo.mod(SPEC)
+    mb_ = [f_ for q_, f_ in spm.functions.items() if q_.endswith('._make_body_parsing_state_delta')]
+    if not mb_:
+        ctx.unknown('R16j', spm, None, 'legacy body-delta override not found', construct='legacy body delta')
+    else:
+        why = None
+        n_fb = 0
+        for cs in symex.return_cases(mb_[0]):
+            v = symex.resolve(cs.sub, cs.env)
+            facts = symex.facts_of(cs.conds, cs.env)
+            if isinstance(v, ast.Call) and call_name(v) == 'ParsingStateDeltaReplaceParsingState':
+                x = kwarg(v, 'set_parsing_state') or (v.args[0] if v.args else None)
+                xr = symex.resolve(x, cs.env) if x is not None else None
+                maybe_none = isinstance(xr, ast.Call) and call_name(xr) == 'getattr' and len(xr.args) == 3 \
+                    and isinstance(xr.args[2], ast.Constant) and xr.args[2].value is None
+                known = any(t_ == '%s is None' % unparse(xr) and not p_ for t_, p_ in facts) if xr is not None else False
+                if maybe_none and not known:
+                    why = ('the override returns ReplaceParsingState(%s), which is a no-op when the legacy parser '
+                           'requested no inner state, instead of the spec\'s own body delta: '
+                           'EnvironmentSpec(args_parser=MacroStandardArgsParser(..), is_math_mode=True) parses its '
+                           'body in text mode, unlike the string / std_environment spellings' % short(x))
+            elif unparse(v).endswith('.body_parsing_state_delta'):
+                n_fb += 1
+        if why is None and not n_fb:
+            why = 'no path falls back to the spec\'s own body_parsing_state_delta'
+        ctx.decide('R16j', why is None, spm, mb_[0],
+                   'without a requested inner state the spec\'s own body delta applies',
+                   'legacy args parser wrapper: %s' % why, construct='legacy body delta override')
+
     # ---- R16i: a numeric option is never tested by truthiness (0 is a value, None means "unset")
     from . import gcommon
     n_num = 0
@@ -210,7 +284,6 @@ def run(ctx):
               construct='numeric option scan', trivial=True)
 
     # ---- R16h: the closing delimiter compared by the stop condition == the one registered
-    from .. import symex
     cmpvar = None
     if stc:
         for c_ in ast.walk(stc[0]):
